@@ -24,7 +24,14 @@ MAPS = [
     {"a": "alpha", "a/b": "a/b"},
     {"x": "y", "x/a": "x/a", "x/a/b": "q", "t": "t", "name": "name"},
     {"a/b/c": "a/b/c", "a/b": "ab", "a": "a"},
+    # keys whose first segment carries a namespace (two of them spell built-in functions), alone, as path roots and as owner prefixes
+    {"geo.length": "gl", "geo.distance": "gd/x", "author.info": "ai", "author.info/name": "ain", "self.t": "st", "a": "ns.a", "ns.b/c": "b"},
+    {"ns.a": "a", "a": "ns.a", "ns.a/b": "ns.a/b", "x.y.z": "xyz", "x.y.z/a": "x.y.w/a"},
 ]
+NS_FILTERS = ["geo.length eq 1", "geo.length/a eq geo.distance", "author.info/name eq 'x' and author.info eq 1", "author.info/name/first eq author.info/other",
+              "author.info/any(x: x/a eq author.info/name)", "self.t/any()", "self.t/all(t: t/name eq self.t)", "k.f(q=author.info, p=geo.length) eq geo.length(a)", "k.f(author.info, geo.length) eq 1",
+              "geo.length in (geo.distance, author.info/name, 1)", "ns.a eq a and ns.a/b eq ns.b/c", "not (ns.b/c/d gt -geo.length)", "x.y.z eq x.y.z/a and x.y.z/a/b eq y.z",
+              "c/any(ns.a: ns.a/b eq a)", "ns.a/b/any(a: a eq ns.a)", "geo.distance(geo.distance, geo.length) eq 1", "length eq geo.length and distance eq other.length"]
 
 def table(m):
     lx, ps = ODataLexer(), ODataParser()
@@ -67,6 +74,8 @@ def run(ctx):
             targeted.append(impl.real_parse_ast(f))
         except Exception:  # noqa
             pass
+    for f in NS_FILTERS:
+        targeted.append(impl.real_parse_ast(f))
     nodes += targeted
     targeted_keys = {enc(x) for x in targeted}
     uniq = list({enc(x): x for x in nodes}.items())
